@@ -24,3 +24,20 @@ group("G-IDCONV", "automerge", "am_root.rs", "",
 H("G-IDCONV", "idconv_exid_to_opid_total", "C37 C15 C30 C19", "ANY u64 counter, ANY usize actor-index hint, id naming either actor of a 2-actor table or an absent actor; unwind 18",
   "Ok(counter, index of the id's actor) through the hint or the lookup fallback; Err for an unknown actor (never another actor's object) or a counter above u32::MAX; never panics", timeout=900)
 H("G-IDCONV", "idconv_op_cursor_to_opid_total", "C37 C15", "any u64 counter, either move mode; unwind 18", "as above for cursors", timeout=900)
+
+group("G-EXID", "automerge", "am_exid.rs", "exid",
+      ["exid::ExId::to_bytes", "types::ActorId::{from(&[u8]),to_bytes}", "leb128::write::unsigned (dependency, from source)",
+       "storage::parse::{leb128_u64,take_n,Input::new} (used as the reader of the framing)"],
+      assumptions=["actor content fixed (0x5a repeated), actor LENGTH 1 / 16 / 127 / 128 (both sides of the 1-byte / 2-byte length prefix and of tinyvec's inline / heap split)"])
+for _l, _t in ((1, "quick"), (16, "thorough"), (127, "quick"), (128, "quick")):
+    H("G-EXID", "exid_bytes_framing_actor%d" % _l, "C19 C30", "actor of %d bytes, counter and hint ANY value < 2^14 (two-byte varints; wider values make the output Vec reallocate at a symbolic length: 122M clauses, timeout); unwind 12 (tinyvec default loop 18)" % _l,
+      "to_bytes = tag 0x10, uLEB(actor length), actor bytes, uLEB(hint), uLEB(counter), nothing after", tier=_t, timeout=600)
+
+group("G-CURSORENC", "automerge", "am_cursor.rs", "cursor",
+      ["cursor::Cursor::to_bytes", "leb128::write::unsigned (dependency, from source)"],
+      assumptions=["actor content fixed (0x5a repeated), actor length 1 / 16 / 128; counter < 2^14 (see G-EXID)"])
+for _l, _t in ((1, "quick"), (16, "thorough"), (128, "quick")):
+    H("G-CURSORENC", "cursor_bytes_framing_actor%d" % _l, "C19", "actor of %d bytes, counter ANY value < 2^14, both move modes; Start and End" % _l,
+      "to_bytes = version 1, tag, uLEB(actor length), actor bytes, uLEB(counter), move tag", tier=_t, timeout=600)
+H("G-CURSORENC", "cursor_display_format", "C19", "counter 0..=9, one-byte actor of ANY value, both move modes; unwind 8 (tinyvec default loop 18)",
+  "Display = ['-' iff Before] counter '@' lowercase hex of the actor", unwindset=UW_TINYVEC, timeout=600)
